@@ -956,9 +956,12 @@ class Server:
             timeout=self.path_timeout,
             connection=connection,
         )
+        writer_task = asyncio.create_task(
+            self.response_writer(stream, response_queue),
+        )
         pending = {
             asyncio.create_task(self.greeting(connection, "")),
-            asyncio.create_task(self.response_writer(stream, response_queue)),
+            writer_task,
             asyncio.create_task(self.parse_command(stream)),
         }
         self.connections[key] = connection
@@ -995,6 +998,8 @@ class Server:
                         if not result:
                             # flush replies, within the bound for a peer
                             # that does not take them
+                            if writer_task.done():
+                                return
                             try:
                                 await asyncio.wait_for(
                                     response_queue.join(),
